@@ -11,7 +11,7 @@ from .harness import with_timeout, Timeout
 def _snapshot_defined():
     return list(ctx().defined)
 
-def compare_runs(ref_fn, other_fn, names, *, max_paths=16, timeout_ms=20000, margin=None, extra_assume=(), prefix=''):
+def compare_runs(ref_fn, other_fn, names, *, max_paths=16, timeout_ms=20000, margin=None, extra_assume=(), prefix='', budget_s=20):
     '''ref_fn(vals)->result, other_fn(vals)->result, both on symbolic args.
     returns dict(verdict counts, models=[(argvals, idx)], status)'''
     out = dict(paths=0, exhaustive=True, q=dict(exact_unsat=0, margin_unsat=0, sat=0, unknown=0, trivial=0), models=[], notes=[], struct_mismatch=None,
@@ -54,7 +54,7 @@ def compare_runs(ref_fn, other_fn, names, *, max_paths=16, timeout_ms=20000, mar
         if s0 != s1:
             out['struct_mismatch'] = (s0, s1); continue
         try:
-            v = solve.equiv(r0, r1, pc=P.pc, defined=d0, side=P.side, timeout_ms=timeout_ms, margin=margin)
+            v = solve.equiv(r0, r1, pc=P.pc, defined=d0, side=P.side, timeout_ms=timeout_ms, margin=margin, budget_s=budget_s)
         except Unsupported as e:
             out['unsupported'].append(str(e)[:100]); continue
         for k, n in v.counts().items(): out['q'][k] += n
@@ -76,11 +76,12 @@ def same(a, b, rtol=1e-9):
         return bool(numpy.allclose(a, b, rtol=rtol, atol=1e-9 * max(1., float(numpy.abs(a).max()) if a.size else 1.)))
     return bool((a == b).all())
 
-def concrete_eval(e, args, **cfg):
+def concrete_eval(e, args, strict=False, **cfg):
+    '''strict: floating point invalid/divide conditions in ANY intermediate raise (the input is outside the domain of e)'''
     with warnings.catch_warnings():
         warnings.simplefilter('ignore')
         f = ev.compile(e, cache_const_intermediates=False, **cfg)
-        with numpy.errstate(all='ignore'):
+        with numpy.errstate(**(dict(invalid='raise', divide='raise', over='raise', under='ignore') if strict else dict(all='ignore'))):
             return f({k: numpy.array(v) for k, v in args.items()})
 
 def tolist(x):
